@@ -25,8 +25,13 @@ SetS = z3.SetSort(StrS)
 ArrS = z3.ArraySort(StrS, ObjS)
 
 
+IsNone = UF('py.is_none', ObjS, BoolS)
+
+
 def fresh_map(ctx, name):
-    return SymMap(StrS, {None: ctx.fresh(name + '.values', ArrS)}, dom=ctx.fresh(name + '.keys', SetS))
+    m = SymMap(StrS, {None: ctx.fresh(name + '.values', ArrS)}, dom=ctx.fresh(name + '.keys', SetS))
+    m.may_hold_none = IsNone           # a name of the scope may be bound to None: (m := next((r for r in ...), None))
+    return m
 
 
 def same_map(m1, dom0, arr0, k):
